@@ -16,6 +16,7 @@ import (
 	"sort"
 	"strings"
 	"sync"
+	"sync/atomic"
 	"time"
 
 	"github.com/whawty/auth/internal/verifev"
@@ -80,6 +81,9 @@ type node struct {
 }
 
 var c16mode bool
+
+// synClock: synthetic last-changed values written into the records by the harness
+var synClock int64 = 1100000000
 
 // kinds of mismatch that concern C16 (validity of the directory along histories)
 var c16kinds = map[string]bool{"check": true, "tmp-residue": true, "stale-file": true, "missing-file": true, "op-should-fail": true, "op-should-succeed": true}
@@ -251,12 +255,6 @@ func step(dir string, n *node, o op) *node {
 		expectErr = true
 	}
 	after := time.Now().Unix()
-	if o.Kind == "add" || o.Kind == "update" {
-		if r, ok := m[o.User]; ok && !expectErr {
-			r.thi = after
-			m[o.User] = r
-		}
-	}
 	path := append(append([]op{}, n.path...), o)
 	fail := func(kind, format string, a ...any) {
 		if c16mode && !c16kinds[kind] {
@@ -268,6 +266,34 @@ func step(dir string, n *node, o op) *node {
 			ps = append(ps, x.String())
 		}
 		ev.Violation("seq:"+kind+":"+o.Kind, desc+" after history "+strings.Join(ps, " ; "), map[string]any{"history": path, "passwords": pws})
+	}
+	if o.Kind == "add" || o.Kind == "update" {
+		if r, ok := m[o.User]; ok && !expectErr && err == nil {
+			// the record carries the time of the write ...
+			ext := ".user"
+			if r.admin {
+				ext = ".admin"
+			}
+			fn := filepath.Join(dir, o.User+ext)
+			if b, rerr := os.ReadFile(fn); rerr == nil {
+				f := strings.SplitN(string(b), ":", 3)
+				ts := int64(-1)
+				if len(f) == 3 {
+					fmt.Sscan(f[1], &ts)
+				}
+				if ts < before || ts > after {
+					fail("record-timestamp", "record written at [%d,%d] carries timestamp %d", before, after, ts)
+				}
+				// ... and from now on a synthetic, unique one (the timestamp is not covered by the digest),
+				// so that "last changed" reported by authenticate / list is provably the RECORD's time
+				syn := atomic.AddInt64(&synClock, 1)
+				if len(f) == 3 {
+					os.WriteFile(fn, []byte(f[0]+":"+fmt.Sprint(syn)+":"+f[2]), 0600) //nolint:errcheck
+				}
+				r.tlo, r.thi = syn, syn
+			}
+			m[o.User] = r
+		}
 	}
 	if expectErr && err == nil {
 		fail("op-should-fail", "%v succeeded but the model says it must fail", o)
